@@ -314,6 +314,9 @@ func SolveMode(cs []Clause, data []*triple.Triple, glo, ghi *time.Time, lenient 
 				if na, ok := match(c, tr, s.A.clone(), glo, ghi, lenient); ok {
 					next = append(next, Sol{na, s.N})
 					matched = true
+					if len(c.Bindings()) == 0 {
+						break // a clause that binds nothing only asks for existence: one derivation
+					}
 				}
 			}
 			if !matched && c.Optional {
